@@ -2,4 +2,5 @@ From Coq Require Extraction ExtrOcamlBasic.
 From Wz Require Import lib.Bytes lib.ExtractBase C08.LibStr C08.Gen C08.Model.
 Extraction Language OCaml.
 Extraction "C08/model_extracted.ml" force_types hs_init hs_obs hs_run hd_init hd_obs hd_run hd_or
-  md_init md_obs md_run md_or imd_run cmd_obs cmd_run eh_obs eh_run.
+  md_init md_obs md_run md_or imd_run cmd_obs cmd_run eh_obs eh_run
+  md_eqb hd_eqb hs_eqb md_deepcopy imd_reduce md_setstate.
